@@ -364,6 +364,33 @@ pub fn plan(property: &str, tier: Tier) -> Option<Plan>
                 c.update_after_top = true;
                 items.push(item(c, "frames", &format!("N={n}")));
             }
+            // reactors registered with App::add_reactor: several registrations of the same closure type, each must get
+            // a system (and state) of its own
+            let ns: &[u32] = if q { &[3] } else { &[3, 4] };
+            for &n in ns
+            {
+                let mut c = Config::base(&format!("C13/app-reactors/N{n}"));
+                c.actors = vec![Variant::Plain];
+                c.n_ents = 1;
+                c.app_reactors = vec![
+                    (Variant::Plain, Bundle::one(Trig::Broadcast(Ev::A))),
+                    (Variant::Plain, Bundle::two(Trig::Broadcast(Ev::B), Trig::ResMut)),
+                    (Variant::Plain, Bundle::two(Trig::EntityEvent(Ev::A, 0), Trig::Broadcast(Ev::A))),
+                ];
+                let alpha: AlphabetFn = Arc::new(|i: &DynInfo| {
+                    let mut v = vec![Op::Broadcast(Ev::A), Op::Broadcast(Ev::B), Op::ResMutate(How::GetMut), Op::EntityEvent(Ev::A, 0)];
+                    for a in i.ready_actors() { v.push(Op::Run(a)); v.push(Op::SysEvent(a)); }
+                    v
+                });
+                c.top = alpha.clone();
+                c.script = alpha;
+                c.max_top = 2;
+                c.budget = n;
+                c.max_per_run = 2;
+                c.max_runs = 300;
+                c.sym_actors = vec![];
+                items.push(item(c, "app-reactors", &format!("N={n}")));
+            }
             reports = vec!["C13"];
             rule = "runner-core programs over three registrations of the same closure type (and exclusive / erring \
                 variants): at every run the Local counter and the captured counter equal the number of earlier runs of \
@@ -933,6 +960,42 @@ pub fn plan(property: &str, tier: Tier) -> Option<Plan>
                     items.push(item(c, &format!("intree-{gname}"), &format!("N={n}")));
                 }
             }
+            // registration / revocation through an entity world reactor (EntityCommands::add_world_reactor,
+            // EntityReactor::remove) next to ordinary registrations on the same entities
+            {
+                let ds: &[u32] = if q { &[4] } else { &[4, 5] };
+                for &d in ds
+                {
+                    let mut c = Config::base(&format!("{property}/ewr/D{d}"));
+                    c.actors = vec![Variant::Plain, Variant::Plain];
+                    c.ewr = Some(Variant::Plain);
+                    c.n_ents = 2;
+                    c.setup = vec![Op::Insert(Comp::A, 0, 0), Op::Insert(Comp::A, 1, 0)];
+                    let alpha: AlphabetFn = Arc::new(move |_i: &DynInfo| {
+                        let mut v = Vec::new();
+                        for e in 0..2u8
+                        {
+                            v.push(Op::EwrAdd(e));
+                            for w in 0..3u8 { v.push(Op::EwrRemove(e, w)); }
+                            v.push(Op::EntityEvent(Ev::A, e));
+                            v.push(Op::Mutate(Comp::A, e, How::GetMut));
+                        }
+                        v.push(Op::Register(0, Bundle::one(Trig::EntityEvent(Ev::A, 0)), Mode::Persistent));
+                        v.push(Op::Register(0, Bundle::one(Trig::EntityMutation(Comp::A, 1)), Mode::Persistent));
+                        v.push(Op::Despawn(0));
+                        v
+                    });
+                    c.top = alpha.clone();
+                    c.script = alpha;
+                    c.max_top = d;
+                    c.budget = d;
+                    c.max_per_run = 2;
+                    c.sym_actors = vec![];
+                    c.final_gc = true;
+                    c.max_runs = 200;
+                    items.push(item(c, "ewr", &format!("D={d}")));
+                }
+            }
             reports = vec![if is1 { "C01" } else { "C06" }];
             rule = "histories of register (new reactor in each mode / existing reactor) / revoke / fire / despawn over \
                 trigger groups that share keys (events; component tables; resource + entity-scoped), at top level (depth \
@@ -980,6 +1043,8 @@ pub fn plan(property: &str, tier: Tier) -> Option<Plan>
                         }
                     }
                     for k in i.ready_tokens() { v.push(Op::Revoke(k)); }
+                    // a reactor despawned by hand: its handles become stale entries of the auto-despawn channel
+                    if is7 { for a in i.ready_actors() { if a != 0 { v.push(Op::DespawnSys(a)); } } }
                     v.push(Op::Broadcast(Ev::A));
                     v.push(Op::EntityEvent(Ev::A, 0));
                     v.push(Op::ResMutate(How::GetMut));
